@@ -68,19 +68,43 @@ class Tr:
             return f"({_v(e.value.id)}.getD (Int.toNat {self.iexpr(e.slice, env)}) 0)"
         raise Untranslatable("int expr: " + ast.dump(e))
 
-    def bexpr(self, e, env) -> str:
+    @staticmethod
+    def _nonzero_fact(t):
+        """`x > 0`, `x < 0`, `x != 0` (x a name): the name is known non-zero in the conjuncts that follow"""
+        if isinstance(t, ast.Compare) and len(t.ops) == 1 and isinstance(t.left, ast.Name) and isinstance(t.comparators[0], ast.Constant) \
+                and t.comparators[0].value == 0 and isinstance(t.ops[0], (ast.Gt, ast.Lt, ast.NotEq)):
+            return t.left.id
+        return None
+
+    def bexpr(self, e, env, nz=frozenset()) -> str:
+        """condition.  Python evaluates `and`/`or` left to right and stops early; Lean's `∧`/`∨` on decidable
+        propositions have no effect to skip, so the only thing short-circuiting can change is whether a
+        division by zero is *reached*.  A `//` or `%` inside a condition is therefore accepted only when its
+        divisor is a name that an earlier conjunct of the same `and` chain proved non-zero (`nz`)."""
         if isinstance(e, ast.BoolOp):
             op = " ∧ " if isinstance(e.op, ast.And) else " ∨ "
-            return "(" + op.join(self.bexpr(v, env) for v in e.values) + ")"
+            parts = []
+            known = set(nz)
+            for v in e.values:
+                parts.append(self.bexpr(v, env, frozenset(known) if isinstance(e.op, ast.And) else nz))
+                f = self._nonzero_fact(v)
+                if f is not None:
+                    known.add(f)
+            return "(" + op.join(parts) + ")"
         if isinstance(e, ast.UnaryOp) and isinstance(e.op, ast.Not):
-            return f"(¬ {self.bexpr(e.operand, env)})"
+            return f"(¬ {self.bexpr(e.operand, env, nz)})"
+        for n in ast.walk(e):
+            if isinstance(n, ast.BinOp) and isinstance(n.op, (ast.FloorDiv, ast.Mod)):
+                if not (isinstance(n.right, ast.Name) and n.right.id in nz):
+                    raise Untranslatable("division in a condition whose divisor is not guarded by an earlier `d > 0` / `d != 0` conjunct")
         nt = self._is_none_test(e)
         if nt is not None:
             nm, positive = nt
             t = env.get(nm)
             if t == "opt":
                 return f"({_v(nm)}.isNone = true)" if positive else f"({_v(nm)}.isSome = true)"
-            if t == "int":
+            if t in ("int", "list"):
+                # the caller declared this name as an int / a list: statically not None
                 return "False" if positive else "True"
             raise Untranslatable(f"is-None test on {nm}: {t}")
         if isinstance(e, ast.Compare):
@@ -124,12 +148,15 @@ class Tr:
         if isinstance(s, ast.AugAssign) and isinstance(s.target, ast.Name):
             s = ast.Assign(targets=[s.target], value=ast.BinOp(left=ast.Name(id=s.target.id, ctx=ast.Load()), op=s.op, right=s.value))
         # ---- division guard: python raises ZeroDivisionError where Lean's fdiv/fmod are total
-        if isinstance(s, ast.Assign):
+        if isinstance(s, (ast.Assign, ast.Return)) and s.value is not None:
             divs = [n.right for n in ast.walk(s.value) if isinstance(n, ast.BinOp) and isinstance(n.op, (ast.FloorDiv, ast.Mod))]
             if divs and not getattr(s, "_guarded", False):
-                s._guarded = True
-                g = " ∨ ".join(f"({self.iexpr(d, env)} = 0)" for d in divs)
-                return f'{pad}if ({g}) then .error "ZeroDivisionError" else (\n' + self.block([s] + list(rest), env, ind + 1) + ")"
+                s._guarded = True   # (the node is shared by every duplicated continuation: reset it afterwards)
+                try:
+                    g = " ∨ ".join(f"({self.iexpr(d, env)} = 0)" for d in divs)
+                    return f'{pad}if ({g}) then .error "ZeroDivisionError" else (\n' + self.block([s] + list(rest), env, ind + 1) + ")"
+                finally:
+                    s._guarded = False
         # ---- list copy, list element assignment
         if isinstance(s, ast.Assign) and len(s.targets) == 1 and isinstance(s.targets[0], ast.Name) and isinstance(s.value, ast.Call) \
                 and isinstance(s.value.func, ast.Name) and s.value.func.id in ("_copy", "list") and len(s.value.args) == 1 \
@@ -235,8 +262,8 @@ class Tr:
                     out += f"{pad}| none => (\n" + self.block(list(a_stmts) + rest, env_none, ind + 1) + ")\n"
                     out += f"{pad}| some {_v(nm)} => (\n" + self.block(list(b_stmts) + rest, env_some, ind + 1) + ")"
                     return out
-                if t == "int":
-                    # statically known: never None
+                if t in ("int", "list"):
+                    # statically known: never None (declared as an int / a list by the caller)
                     taken = s.orelse if positive else s.body
                     return self.block(list(taken) + rest, env, ind)
                 raise Untranslatable(f"is-None test on unknown {nm}")
